@@ -1335,6 +1335,11 @@ def r_supersede(ctx) -> RuleResult:
             v = try_const(ctx, f_, ast.Name(nm, ast.Load()))
             if v is not None:
                 out_.setdefault(nm, v)
+        from ..concrete import ContextDefault
+        for nm in {x.id for x in ast.walk(f_.node) if isinstance(x, ast.Name)} - set(out_):
+            v_ = f_.module.assigns.get(nm)
+            if isinstance(v_, ast.Call) and norm(v_.func).endswith("ContextVar") and isinstance(kwarg(v_, "default"), ast.Constant):
+                out_[nm] = ContextDefault(kwarg(v_, "default").value)
         return out_
     consts = {}
     for f_ in {pf, sf} | {k["func"] for k in kills}:
@@ -1364,7 +1369,9 @@ def r_supersede(ctx) -> RuleResult:
         [smp, 'M  END']; None for the statements if every way through ends in a raise.  With a sample atom table for the
         (one) other parameter: (the tables at the ends of the ways through, gaps)"""
         import copy
+        from .common import record_classes
         pe = PathEval(callable_funcs)
+        pe.record_classes = record_classes(ctx, pf.module)
         env = copy.deepcopy(consts)
         others = [p_ for p_ in params_of(fn) if p_ not in scanned]
         if atoms is not None and len(others) != 1:
@@ -1858,9 +1865,101 @@ def splice_model(ctx):
     return found
 
 
+def _splice_samples(ctx, res: RuleResult):
+    """follow the function that joins continuation lines on sample line lists and compare, token by token, with what the
+    format says (drop the dash, drop the seven characters `M  V30 ` of the next line, keep everything else)"""
+    from ..concrete import PathEval, PState, _Unknown
+    from .spec import V3000_CONTINUATION, V3000_LINE_PREFIX
+    v3 = reader_entries(ctx)["V3000"]
+    def tests_dash(f_):
+        return any(isinstance(n, ast.Call) and isinstance(n.func, ast.Attribute) and n.func.attr == "endswith" and n.args
+                   and try_const(ctx, f_, n.args[0]) == V3000_CONTINUATION for n in own_walk(f_.node))
+    cands = []
+    for q in ctx.cg.closure([v3.fq]):
+        f = ctx.cg.funcs[q]
+        # works through a list of lines (one parameter, a loop) and tests for the trailing dash itself or in a helper
+        if f.cls is None and len(params_of(f.node)) == 1 and any(isinstance(n, (ast.For, ast.While)) for n in own_walk(f.node)) \
+                and (tests_dash(f) or any(tests_dash(ctx.cg.funcs[q2]) for q2 in ctx.cg.closure([f.fq]) if q2 in ctx.cg.funcs)):
+            cands.append(f)
+    # the innermost such function: the one that calls no other candidate
+    cands = [f for f in cands if not any(g.fq in ctx.cg.closure([f.fq]) for g in cands if g is not f)]
+    if len(cands) != 1:
+        res.notes.append(f"sample line lists not followed: {len(cands)} functions of one argument test for a trailing `-`")
+        return
+    f = cands[0]
+
+    def ref(lines):
+        out, i = [], 0
+        while i < len(lines):
+            cur = lines[i]
+            i += 1
+            while i < len(lines) and cur.startswith(V3000_LINE_PREFIX) and cur.endswith(V3000_CONTINUATION):
+                cur = cur[:-1] + lines[i][len(V3000_LINE_PREFIX):]
+                i += 1
+            out.append(cur)
+        return out
+    head = ["title", "  prog", "comment", "  0  0  0     0  0            999 V3000", "M  V30 BEGIN CTAB"]
+    samples = [
+        ("the blank that separates two fields is the first character after the prefix", ["M  V30 1 C 0 0 0 0-", "M  V30  CHG=1 MASS=13"]),
+        ("the line is cut inside a field", ["M  V30 1 C 0 0 0 0 CH-", "M  V30 G=1 MASS=13"]),
+        ("the blank that separates two fields is the last character before the dash", ["M  V30 1 C 0 0 0 0 -", "M  V30 CHG=1"]),
+        ("an entry over three lines", ["M  V30 1 C 0 0-", "M  V30  0 0 CHG-", "M  V30 =1 RAD=2"]),
+        ("no continuation", ["M  V30 1 C 0 0 0 0 CHG=1", "M  V30 2 O 1 0 0 0"]),
+        ("a title line that ends in a dash", None),
+    ]
+    calls = {}
+    for g in [ctx.cg.funcs[q] for q in ctx.cg.closure([f.fq])]:
+        if g.cls is None and "." not in g.qualname:
+            calls[g.name] = (g.node, {nm: v for nm in {x.id for x in ast.walk(g.node) if isinstance(x, ast.Name)} if (v := try_const(ctx, g, ast.Name(nm, ast.Load()), default=None)) is not None})
+    n = 0
+    for what, body in samples:
+        lines = (["ends in a dash-"] + head[1:] + ["M  V30 1 C 0 0 0 0", "M  END"]) if body is None else head + body + ["M  V30 END CTAB", "M  END"]
+        want = ref(lines)
+        pe = PathEval(calls)
+        from .common import record_classes
+        pe.record_classes = record_classes(ctx, f.module)
+        env = {nm: v for nm in {x.id for x in ast.walk(f.node) if isinstance(x, ast.Name)} if nm not in params_of(f.node) and (v := try_const(ctx, f, ast.Name(nm, ast.Load()), default=None)) is not None}
+        env[params_of(f.node)[0]] = list(lines)
+        try:
+            falls, lefts = pe.block(f.node.body, [PState(env)])
+        except (NameError, UnboundLocalError):
+            raise
+        except Exception:
+            continue
+        rets = [v_ for _s, how, v_ in lefts if how == "return"]
+        raised = [1 for _s, how, _v in lefts if how == "raise"]
+        if pe.gaps or falls or not (rets or raised):
+            continue
+        if raised and not rets:
+            n += 1
+            res.inst(f.fq, f"sample lines ({what})", "fail")
+            res.fail(Finding("R-SPLICE", f.module.rel, f.qualname, f"{what}: rejected", f"following {f.name} on well-formed lines ({what}: {body}) ends in a raise on every way through", line=f.node.lineno))
+            return
+        if any(isinstance(v_, _Unknown) or not isinstance(v_, list) or any(not isinstance(x_, str) for x_ in v_) for v_ in rets):
+            continue
+        n += 1
+
+        def toks(ls):
+            return [l.split() if l.startswith(V3000_LINE_PREFIX.rstrip()) else [l] for l in ls]
+        wrong = [v_ for v_ in rets if toks(v_) != toks(want)]
+        bad = bool(wrong) and len(wrong) == len(rets)
+        res.inst(f.fq, f"sample lines ({what})", "fail" if bad else "ok")
+        if bad:
+            got_l = next((g_ for g_, w_ in zip(wrong[0], want) if g_.split() != w_.split()), wrong[0][-1] if wrong[0] else "")
+            want_l = next((w_ for g_, w_ in zip(wrong[0], want) if g_.split() != w_.split()), want[-1])
+            res.fail(Finding("R-SPLICE", f.module.rel, f.qualname, f"{what}",
+                             f"{what}: following {f.name} on {body if body is not None else lines[:2]} gives the line `{got_l}`, the format says `{want_l}` "
+                             "(the dash and the seven characters `M  V30 ` go, everything else stays): two fields fuse or one is split", line=f.node.lineno))
+            return
+    res.counts = dict(res.counts or {}, sample_line_lists_followed=n)
+
+
 @rule("R-SPLICE")
 def r_splice(ctx) -> RuleResult:
     res = RuleResult("R-SPLICE", "V3000 continuation lines: the splice drops exactly the continuation character of the current line and exactly the fixed line prefix of the next one, nothing of the payload")
+    _splice_samples(ctx, res)
+    if res.findings:
+        return res          # shown on a sample; the structural clauses below could only add 'cannot tell'
     sm = splice_model(ctx)
     if sm is None:
         raise AnalysisError("R-SPLICE: the V3000 reader has no continuation-line splicer (see R-ORDERING)")
@@ -2661,9 +2760,40 @@ def r_graphbuild(ctx) -> RuleResult:
                     if csr.kind == "tucan":
                         h = csr.target
                         hrets = [x for x in own_walk(h.node) if isinstance(x, ast.Return) and isinstance(x.value, ast.Call)]
-                        if len(hrets) == 1:
-                            bind = dict(zip(params_of(h.node), v.args))
+                        allrets = [x for x in own_walk(h.node) if isinstance(x, ast.Return) and x.value is not None]
+                        bind = dict(zip(params_of(h.node), v.args))
+                        if len(hrets) == 1 and len(allrets) == 1:
                             verdict = zip_nodes_range(hrets[0].value, h, bind)
+                        elif allrets:
+                            # several ways out of the helper: each hands back a renumbered graph, or the graph it was given
+                            verdicts = []
+                            for hr in allrets:
+                                hv = hr.value
+                                if isinstance(hv, ast.Name) and hv.id in bind and not assigned_names(h.node).get(hv.id):
+                                    verdicts.append(("as given", hr))
+                                elif isinstance(hv, ast.Call) and norm(hv.func).endswith("convert_node_labels_to_integers") and \
+                                        not [k for k in hv.keywords if k.arg in ("ordering", "first_label") and not (isinstance(k.value, ast.Constant) and k.value.value in ("default", 0))]:
+                                    verdicts.append((True, hr))
+                                elif isinstance(hv, ast.Call):
+                                    verdicts.append((zip_nodes_range(hv, h, bind), hr))
+                                else:
+                                    verdicts.append((None, hr))
+                            if all(x[0] is True for x in verdicts):
+                                verdict = True
+                            elif any(x[0] is None for x in verdicts):
+                                verdict = None
+                            elif any(x[0] == "as given" for x in verdicts) and nspace not in ("insertion", "values"):
+                                hr = next(x[1] for x in verdicts if x[0] == "as given")
+                                from .parserwiring import _guard_tests
+                                tests_ = [t_ for t_ in _guard_tests(h.node, hr) if not isinstance(t_, tuple)]
+                                res.inst(gfm.fq, short(r), "fail", detail=f"{h.name} hands the graph back as it was given" + (f" under `{short(tests_[0], 50)}`" if tests_ else ""))
+                                res.fail(Finding("R-GRAPHBUILD", h.module.rel, h.qualname, norm(hr),
+                                                 f"{h.name} hands the graph back with the labels it was built with" + (f" when `{short(tests_[0], 60)}`" if tests_ else "") +
+                                                 ": those are the indices of the file / string, so an input that numbers its atoms in another order (any unique indices are allowed) gives "
+                                                 "another labelled graph; the labels must be the positions 0..n-1 in the order of the atom lines", line=hr.lineno))
+                                continue
+                            else:
+                                verdict = all(x[0] is True or x[0] == "as given" for x in verdicts)
                 if verdict is None:
                     raise AnalysisError(f"R-GRAPHBUILD: cannot tell whether `{short(v)}` renumbers the atoms 0..n-1 in insertion order")
                 ok2 = verdict
